@@ -349,6 +349,21 @@ def roundtrip(prog, chk):
             for fname, (lo, hi) in VALUE_LIMITS.get(ty, {}).items():
                 if fname in fnames and isinstance(tgt, Struct) and isinstance(tgt.get(fnames.index(fname)), Num):
                     st.sys.add_range(tgt.get(fnames.index(fname)).e, lo, hi)
+            # socket addresses: the wire format (RFC 8489 section 14.1) carries family, port and address only; an IPv6 flow label /
+            # scope id cannot survive any encoding, so in-limit values have them zero (recorded as an assumption)
+            def zero_flow(v, depth=0):
+                if isinstance(v, Struct):
+                    if v.tag == "sockv6":
+                        for i_ in (2, 3):
+                            if isinstance(v.get(i_), Num):
+                                st.sys.add_eq(v.get(i_).e)
+                    if depth < 8:
+                        for x in v.f.values():
+                            zero_flow(x, depth + 1)
+                elif isinstance(v, Enum) and depth < 8:
+                    for x in v.v.values():
+                        zero_flow(x, depth + 1)
+            zero_flow(tgt)
             starts = [(st, tgt)]
             for path, vs in variants_of(tgt):
                 nxt = []
@@ -371,7 +386,7 @@ def roundtrip(prog, chk):
                     outs.append(s1)
             it.obligations.clear()
             return outs
-        r = Run(prog, dk, track_content=True, bool_vars=False, path_sensitive=False, setup=setup, max_parts=400, byte_defs=True)
+        r = Run(prog, dk, track_content=True, bool_vars=False, path_sensitive=False, setup=setup, max_parts=400, byte_defs=True, net_records=True)
         if r.error or not r.results:
             undecided.append("%s (analysis: %s)" % (name, (r.error or "no return state")[:120]))
             continue
@@ -396,6 +411,8 @@ def roundtrip(prog, chk):
             decided.append(name)
         else:
             undecided.append("%s (%d accepting states, %d not decided)" % (name, n_ok, sum(1 for v in verdicts if v is None)))
+    chk.assumptions.append("round trip: in-limit values are those the constructors accept (field lengths within the 16-bit attribute length; ERROR-CODE code in 300..=699); "
+                           "IPv6 socket addresses have flowinfo = scope_id = 0 (the STUN wire format carries neither)")
     chk.analysed["roundtrip_decided"] = decided
     chk.analysed["roundtrip_undecided"] = undecided
     chk.floor("roundtrip-decided", len(decided), 6)
